@@ -45,7 +45,8 @@ def handleFootprint (j : Json) : Json :=
       match rest.foldlM (fun a b => TExpr.mkComp a b) t0 with
       | .error e => errJson e
       | .ok f =>
-        match footprint f.eval bb own center types at' with
+        match (if (jBool (jFieldD j "raw" (Json.bool false))).getD false then footprintRaw f.eval bb own center types at'
+               else footprint f.eval bb own center types at') with
         | .error e => errJson e
         | .ok (.points rows) => okJson (Json.mkObj [("points", rowsJson rows)])
         | .ok (.ranges rows) => okJson (Json.mkObj [("ranges", rowsJson rows)])
